@@ -19,7 +19,7 @@ from __future__ import annotations
 
 import z3
 
-from .values import (BoundMethod, BuiltinV, DictObj, ListObj, PyObj, Ref, SetObj, SV, T, TBool, TDict, TInt, TList, TSet, TStr, StrS, Unsupported)
+from .values import (BoundMethod, BuiltinV, DictObj, ListObj, PyObj, Ref, SetObj, SV, T, TBool, TDict, TInt, TList, TSet, TStr, StrS, Unsupported, ValS, declare_ghost)
 
 DiscS = z3.DeclareSort("Disc")
 B = z3.BoolSort()
@@ -73,6 +73,14 @@ rts_member = z3.Function("rts_member", DiscS, NameSetS)  # io.residual_to_state_
 rts_vals = z3.Function("rts_vals", DiscS, z3.ArraySort(StrS, StrS))
 rts_n = z3.Function("rts_n", DiscS, I)
 is_continuous = z3.Function("is_continuous", DiscS, StrS, B)  # grammar.data_converter.is_continuous(name)
+
+DataM, DataV = z3.ArraySort(StrS, B), z3.ArraySort(StrS, ValS)
+exec_member = z3.Function("exec_member", DiscS, DataM, DataV, DataM)  # keys / values of d.execute(data)
+exec_vals = z3.Function("exec_vals", DiscS, DataM, DataV, DataV)
+
+DIFF_S = z3.ArraySort(DiscS, NameSetS)  # discipline -> set of differentiated input (output) names
+declare_ghost("c09_diff_in", DIFF_S)
+declare_ghost("c09_diff_out", DIFF_S)
 
 NXG = "networkx.DiGraph"
 NXC = "networkx.DiGraph[condensation]"
@@ -173,10 +181,18 @@ def _node_t(o):
     return TDisc if o.cls == NXG else TInt
 
 
-def _names_set(ex, member, n):
+class ConverterV:
+    """grammar.data_converter of a discipline's input/output grammar"""
+
+    def __init__(self, d, which):
+        self.d, self.which = d, which
+
+
+def _names_set(ex, member, n, grammar_of=None):
     st = ex.st
     o = SetObj(TStr, member, n)
     o.ty = NAMES
+    o.grammar_of = grammar_of
     for f in o.wf_facts(st):
         st.assume(f)
     return st.alloc(o)
@@ -206,9 +222,9 @@ class GraphModels:
         if isinstance(obj, SV) and type(obj.ty) is _TDiscIO:
             d = obj.term
             if attr == "input_grammar":
-                return _names_set(ex, in_names(d), in_n(d))
+                return _names_set(ex, in_names(d), in_n(d), (d, "in"))
             if attr == "output_grammar":
-                return _names_set(ex, out_names(d), out_n(d))
+                return _names_set(ex, out_names(d), out_n(d), (d, "out"))
             if attr == "residual_to_state_variable":
                 o = DictObj(TStr, TStr, rts_member(d), rts_vals(d), rts_n(d))
                 o.ty = TDict(TStr, TStr)
@@ -218,6 +234,10 @@ class GraphModels:
             return NotImplemented
         if isinstance(obj, (NodesView, ReverseView)):
             return BoundMethod(obj, None, attr)
+        if isinstance(obj, BoundMethod) and obj.finfo is None and obj.name == "data_converter" and isinstance(obj.recv, Ref):
+            g = getattr(st.heap[obj.recv.id], "grammar_of", None)
+            if g is not None and attr == "is_continuous":
+                return BoundMethod(ConverterV(*g), None, "conv.is_continuous")
         return NotImplemented
 
     def equals(self, ex, a, b, lineno):
@@ -276,6 +296,27 @@ class GraphModels:
             raise PyRaise("KeyError", lineno)
         return NotImplemented
 
+    def setitem(self, ex, cont, key, v, lineno):
+        """d[k] = (list, list, ...) on a dict of tuples of lists: the tuple is stored by value; the lists it holds become
+        the lists *of that slot* (later in-place mutations through the local names are written back)."""
+        from .values import TTuple
+
+        st = ex.st
+        o = st.heap[cont.id] if isinstance(cont, Ref) else None
+        if isinstance(o, DictObj) and not o.is_empty_literal and isinstance(o.v, TTuple) and isinstance(v, tuple) and len(v) == len(o.v.items) \
+                and any(isinstance(x, Ref) for x in v):
+            v = tuple(ex.coerce(x, t) for x, t in zip(v, o.v.items))
+            kt = o.k.embed(st, key)
+            o.set(st, kt, o.v.embed(st, v))
+            ex.writeback(o)
+            for i, x in enumerate(v):
+                if isinstance(x, Ref) and isinstance(st.heap[x.id], (ListObj, SetObj, DictObj)):
+                    h = st.heap[x.id]
+                    h.origin = (cont, kt, ("tuple", "dict", o.v, i))
+                    h.ty = o.v.items[i]
+            return True
+        return NotImplemented
+
     def _node_exists(self, ex, cond, lineno):
         from .engine import PyRaise
 
@@ -291,6 +332,11 @@ class GraphModels:
         st = ex.st
         if name.startswith("disc."):
             return self._disc_method(ex, recv, name[5:], args, kwargs, lineno)
+        if name == "conv.is_continuous" and isinstance(recv, ConverterV):
+            return SV(is_continuous(recv.d, TStr.embed(st, args[0])), TBool)
+        if name == "has_names" and isinstance(recv, Ref) and getattr(st.heap[recv.id], "grammar_of", None) is not None:
+            # BaseGrammar.has_names(names) = set(self.keys()).issuperset(names)
+            return ex.models.set_method(ex, recv, st.heap[recv.id], "issuperset", args, kwargs, lineno)
         if isinstance(recv, ReverseView) and name == "get_edge_data":
             return self.call_method(ex, recv.ref, "nx.get_edge_data", [args[1], args[0]], kwargs, lineno)
         if not name.startswith("nx."):
@@ -435,7 +481,46 @@ class GraphModels:
         r = ex.models._plug("disc_method", ex, recv, name, args, kwargs, lineno)
         if r is not NotImplemented:
             return r
+        st = ex.st
+        if name in ("add_differentiated_inputs", "add_differentiated_outputs") and len(args) == 1 and isinstance(args[0], Ref) and isinstance(st.heap[args[0].id], ListObj):
+            return self._add_differentiated(ex, recv.term, name.endswith("inputs"), st.heap[args[0].id], lineno)
+        if name == "execute" and len(args) == 1 and isinstance(args[0], Ref) and isinstance(st.heap[args[0].id], DictObj):
+            # d.execute(data): the discipline's local data after execution, a deterministic function of the discipline and
+            # of the content of the input data; the passed mapping is not modified (ASSUMED)
+            src = st.heap[args[0].id]
+            if src.k != TStr or src.v.sort() != ValS:
+                raise Unsupported("execute() on a mapping that is not str -> value")
+            d = recv.term
+            o = DictObj(TStr, src.v, exec_member(d, src.member, src.vals), exec_vals(d, src.member, src.vals), st.fresh_int("execn"))
+            for f in o.wf_facts(st):
+                st.assume(f)
+            ex.assumed.add("Discipline.execute(data): returns a mapping that is a deterministic function of (discipline, content of data); `data` itself is not modified (assumed)")
+            return st.alloc(o)
         raise Unsupported(f"discipline method {name} (no model registered)")
+
+    def _add_differentiated(self, ex, d, inputs, lst, lineno):
+        """Opaque discipline d: effect of add_differentiated_inputs/outputs(names) on the ghost map of differentiated
+        names, as stated by the contract verified on the real method (c09: AddDifferentiatedInputs/Outputs)."""
+        from .engine import PyRaise
+
+        st = ex.st
+        gname = "c09_diff_in" if inputs else "c09_diff_out"
+        cur = st.ghost_get(gname, DIFF_S)
+        names = in_names(d) if inputs else out_names(d)
+        if lst.is_empty_literal:
+            raise Unsupported("add_differentiated_* with an empty literal")
+        i = z3.Int("i!adn")
+        k = z3.Const("k!adn", StrS)
+        inl = z3.Lambda([k], z3.Exists([i], z3.And(0 <= i, i < lst.n, lst.elems[i] == k)))
+        bad = z3.And(lst.n != 0, z3.Exists([i], z3.And(0 <= i, i < lst.n, z3.Not(names[lst.elems[i]]))))
+        if st.decide(bad):
+            raise PyRaise("ValueError", lineno)
+        which = z3.BoolVal(inputs)
+        sel = z3.Lambda([k], z3.If(lst.n != 0, inl[k], names[k]))
+        new = z3.Lambda([k], z3.Or(cur[d][k], z3.And(sel[k], is_continuous(d, k))))
+        st.ghost_set(gname, z3.Store(cur, d, new))
+        ex.assumed.add("opaque disciplines: add_differentiated_inputs/outputs acts on the ghost map of differentiated names as its verified contract states")
+        return None
 
     # ------------------------------------------------------------------ networkx functions, builtins
     def call_builtin(self, ex, name, args, kwargs, lineno, node=None):
